@@ -24,7 +24,7 @@ import beartype.roar  # noqa: F401
 PID = 'C17'
 LEVEL = 'exploration'
 BUDGET = {'quick': 900, 'thorough': 40000}
-CAP_S = {'quick': 200, 'thorough': 2400}
+CAP_S = {'quick': 140, 'thorough': 2400}
 MAX_SHARDS = 3   # fork throughput of this sandbox (~80/s) does not scale with processes
 RULE = ('case = history of <=6 BeartypeConf(**kw) calls + a final one, each kw from per-option pools '
         '(valid / invalid / look-alike), run in a forked pristine process and compared with a fork that '
